@@ -5,6 +5,7 @@ built through the public API and put through write -> read -> write; the re-read
 with the (normalised) spec, never only with another library output.  Every depth<=k state is also
 reached from a re-loaded parent (non-initial start).
 """
+import copy
 import json
 import os
 import tempfile
@@ -155,6 +156,13 @@ def eval_case(case):
                 raise
             except Exception as exc:                                    # noqa
                 return {"status": "bad", "problems": ["the parent's written file cannot be read back: %s" % exc_name(exc)]}
+            # what the re-read parent holds is the parent AS WRITTEN: paths for architectures outside a variant's arch set and
+            # empty paths were not stored (documented normalisation) and do not come back when a later edit adds the arch
+            written = copy.deepcopy(parent)
+            for v, _, _ in B.walk(written["variants"]):
+                v["paths"] = {cat: {a: q for a, q in per.items() if q and a in v["arches"]} for cat, per in v["paths"].items()}
+                v["paths"] = {cat: per for cat, per in v["paths"].items() if per}
+            spec = B.apply_spec(written, case["edits"][-1])
             B.apply_obj(obj, case["edits"][-1], spec)
     except (ValueError, TypeError) as exc:
         return {"status": "refused", "problems": ["build: %s" % exc_name(exc)]}
